@@ -31,10 +31,45 @@ def refinement(*conditions: ConditionType) -> SymbolicExpression[T]:
     current_node = SymbolicExpression._current_parent_()
     prev_parent = current_node._parent_
     current_node._parent_ = None
-    new_conditions_root = ExceptIf(SymbolicExpression._current_parent_(), new_branch)
+    new_conditions_root = ExceptIf(current_node, new_branch)
     new_branch._node_.weight = RDREdge.Refinement
-    new_conditions_root._parent_ = prev_parent
+    _replace_operand_of_parent(prev_parent, current_node, new_conditions_root)
     return new_conditions_root.right
+
+
+def _replace_operand_of_parent(
+    parent: SymbolicExpression,
+    old_operand: SymbolicExpression,
+    new_operand: SymbolicExpression,
+):
+    """
+    Put the new operand where the old operand was in the given parent.
+
+    :param parent: The previous parent of the old operand (can be None if the old operand was a root).
+    :param old_operand: The expression that got wrapped by the new operand.
+    :param new_operand: The new expression that takes the place of the old operand.
+    """
+    new_operand._parent_ = parent
+    if isinstance(parent, BinaryOperator):
+        if parent.left is old_operand:
+            parent.left = new_operand
+        else:
+            parent.right = new_operand
+
+
+def _root_of_the_chain_of(node: SymbolicExpression) -> SymbolicExpression:
+    """
+    :return: The expression that represents the whole chain of alternative/next branches that the given node belongs to,
+     where a node that has refinements is represented together with them.
+    """
+    while True:
+        parent = node._parent_
+        if isinstance(parent, (Alternative, Next)):
+            node = parent
+        elif isinstance(parent, ExceptIf) and node is parent.left:
+            node = parent
+        else:
+            return node
 
 
 def alternative(*conditions: ConditionType) -> SymbolicExpression[T]:
@@ -78,14 +113,7 @@ def alternative_or_next(
     :returns: The newly created branch node for further chaining.
     """
     new_branch = chained_logic(AND, *conditions)
-    current_node = SymbolicExpression._current_parent_()
-    if isinstance(current_node._parent_, (Alternative, Next)):
-        current_node = current_node._parent_
-    elif (
-        isinstance(current_node._parent_, ExceptIf)
-        and current_node is current_node._parent_.left
-    ):
-        current_node = current_node._parent_
+    current_node = _root_of_the_chain_of(SymbolicExpression._current_parent_())
     prev_parent = current_node._parent_
     current_node._parent_ = None
     if type_ == RDREdge.Alternative:
@@ -97,7 +125,5 @@ def alternative_or_next(
             f"Invalid type: {type_}, expected one of: {RDREdge.Alternative}, {RDREdge.Next}"
         )
     new_branch._node_.weight = type_
-    new_conditions_root._parent_ = prev_parent
-    if isinstance(prev_parent, BinaryOperator):
-        prev_parent.right = new_conditions_root
+    _replace_operand_of_parent(prev_parent, current_node, new_conditions_root)
     return new_conditions_root.right
